@@ -82,6 +82,9 @@ func (r *Rec) GCLogFile() error {
 
 // MemDisk is an in-memory DiskManager with DiskManagerImpl's file semantics.
 type MemDisk struct {
+	// OnWritePage, when set, is called after a page write has been performed and before WritePage returns
+	// (outside the disk's own mutex): a driver uses it to act "while a write is in progress".
+	OnWritePage func(id int)
 	mu     sync.Mutex
 	db     []byte
 	log    []byte
@@ -107,12 +110,15 @@ func (d *MemDisk) ReadPage(id types.PageID, b []byte) error {
 }
 func (d *MemDisk) WritePage(id types.PageID, b []byte) error {
 	d.mu.Lock()
-	defer d.mu.Unlock()
 	off := int(id) * common.PageSize
 	if off+common.PageSize > len(d.db) {
 		d.db = append(d.db, make([]byte, off+common.PageSize-len(d.db))...)
 	}
 	copy(d.db[off:], b[:common.PageSize])
+	d.mu.Unlock()
+	if d.OnWritePage != nil {
+		d.OnWritePage(int(id))
+	}
 	return nil
 }
 func (d *MemDisk) AllocatePage() types.PageID {
